@@ -18,7 +18,7 @@
    of X repeated d times, and IndicatorGroupL1UnitBall(exponent 2) likewise.  The KL family has its own
    theorems below (its values involve ln).                                                              *)
 From Coq Require Import Reals Lra Lia List Bool.
-From Verif Require Import Base.Num Base.Vec Base.VecR C07.Model C07.Convex C07.Leaves C07.LeafThms C07.Rules C07.L2 C07.Compose C07.Sorting C07.KL C07.Group C07.Proofs C07.Refuted.
+From Verif Require Import Base.Num Base.Vec Base.VecR C07.Model C07.Convex C07.Leaves C07.LeafThms C07.Rules C07.L2 C07.Compose C07.Sorting C07.KL C07.Group C07.Proofs C07.Sound C07.Refuted.
 Import ListNotations.
 Local Open Scope R_scope.
 
@@ -146,6 +146,40 @@ Theorem variational_form_implies_minimiser : forall n (f : list R -> option R) (
   length m = n -> length x = n -> allpos m -> is_proxs n f m x p -> is_proxm n f m x p.
 Proof. exact is_proxs_proxm. Qed.
 Print Assumptions rule_quadratic_perturbation_sound.
+
+(* Closure of SOUND proximal factories under the model's own combinators (= the code's calculus rules), for
+   arbitrary functionals; scalar steps.
+     sound n w f pf :=  forall sigma x, 0 < sigma -> length x = n ->
+        exists p, pf (SScal sigma) x = Ok p /\ is_proxs n f (metric w (repeat sigma n)) x p
+   Every finite composition of the rules applied to sound leaves is therefore sound -- convex conjugation
+   (FunctionalDefaultConvexConjugate / proximal_convex_conj) at ANY position of an expression included. *)
+Theorem sound_every_wellformed_tree : forall e : @fexpr R, wf e -> sound (fdim e) (fweights e) (fval e) (fprox e).
+Proof. exact sound_tree. Qed.
+Theorem sound_closed_translation : forall n w f pf t, length w = n -> length t = n ->
+  sound n w f pf -> sound n w (fun z => f (vsub z t)) (prox_translation pf t).
+Proof. exact sound_translation. Qed.
+Theorem sound_closed_left_scaling : forall n w f pf s, 0 < s -> length w = n ->
+  sound n w f pf -> sound n w (fun z => escal s (f z)) (fun sg x => pf (sig_scale s sg) x).
+Proof. exact sound_left_scaling. Qed.
+Theorem sound_closed_arg_scaling : forall n w f pf c, c <> 0 -> length w = n ->
+  sound n w f pf -> sound n w (fun z => f (vscal c z)) (prox_arg_scaling pf c).
+Proof. exact sound_arg_scaling. Qed.
+Theorem sound_closed_quadratic_perturbation : forall n w f pf a u k, 0 <= a -> allpos w -> length w = n -> length u = n ->
+  sound n w f pf ->
+  sound n w (fun z => eadd (f z) (Some (a * wnormsq w z + wdot w z u + k))) (prox_quad_pert pf a (Some u)).
+Proof. exact sound_quadratic_perturbation. Qed.
+Theorem sound_closed_convex_conj : forall n w f fs pf, allpos w -> length w = n ->
+  is_conj n w f fs -> sound n w f pf -> sound n w fs (prox_convex_conj pf).
+Proof. exact sound_convex_conj. Qed.
+Theorem sound_closed_separable_sum : forall n1 n2 w1 w2 f1 f2 p1 p2, length w1 = n1 -> length w2 = n2 ->
+  sound n1 w1 f1 p1 -> sound n2 w2 f2 p2 ->
+  sound (n1 + n2) (w1 ++ w2) (fun z => eadd (f1 (firstn n1 z)) (f2 (skipn n1 z))) (prox_combine n1 p1 p2).
+Proof. exact sound_combine. Qed.
+Theorem sound_closed_composition : forall k n f pf A mu, rows_ok k n A -> 0 < mu ->
+  (forall u, length u = k -> mvec A (mvec (transpose n A) u) = vscal mu u) ->
+  sound k (repeat 1 k) f pf -> sound n (repeat 1 n) (fun z => f (mvec A z)) (prox_composition pf n A mu).
+Proof. exact sound_composition. Qed.
+Print Assumptions sound_closed_quadratic_perturbation.
 
 (* Moreau rule = proximal_convex_conj:  x - sigma * prox_{f, 1/sigma}(x / sigma)  is the proximal point of the
    convex conjugate fs of f (conjugate w.r.t. the weighted inner product, as a least upper bound in the
